@@ -9,6 +9,7 @@ package main
 import (
 	"fmt"
 	"os"
+	"strings"
 	"go/types"
 
 	"golang.org/x/tools/go/ssa"
@@ -19,6 +20,7 @@ type constGlobalInfo struct {
 	uniq  int       // unique identity for opaque values (errors.New, &T{...})
 	isErr bool
 	isObj bool
+	call  *ssa.Call // initialised by a call of a module function under contract
 }
 
 func (p *Program) analyseGlobals() {
@@ -84,6 +86,8 @@ func (p *Program) analyseGlobals() {
 			uniq++
 			info.uniq = uniq
 			info.isErr = true
+		case moduleCall(p, v) != nil:
+			info.call = moduleCall(p, v)
 		default:
 			// pointer to a fresh object allocated in init
 			_, isMap := v.(*ssa.MakeMap)
@@ -97,6 +101,25 @@ func (p *Program) analyseGlobals() {
 		}
 		p.constGlobals[g] = info
 	}
+}
+
+// moduleCall: v is the result of calling a function of the module whose
+// arguments are simple values.
+func moduleCall(p *Program, v ssa.Value) *ssa.Call {
+	c, ok := v.(*ssa.Call)
+	if !ok {
+		return nil
+	}
+	f, ok := c.Call.Value.(*ssa.Function)
+	if !ok || f.Pkg == nil || !p.inModule(f.Pkg.Pkg.Path()) {
+		return nil
+	}
+	for _, a := range c.Call.Args {
+		if !simpleValue(a) {
+			return nil
+		}
+	}
+	return c
 }
 
 func simpleValue(v ssa.Value) bool {
@@ -176,6 +199,39 @@ func (x *Exec) constGlobalVal(g *ssa.Global) (Val, bool) {
 			}
 		}
 		return Val{T: elem, S: name}, true
+	}
+	if info.call != nil {
+		callee := info.call.Call.Value.(*ssa.Function)
+		fc := x.p.contracts[x.p.funcKey(callee)]
+		if fc == nil || callee.Signature.Results().Len() != 1 {
+			return Val{}, false
+		}
+		name := "gcall_" + san(g.Pkg.Pkg.Name()+"."+g.Name())
+		val := Val{T: elem, S: name}
+		if !c.funDecls["const:"+name] {
+			c.funDecls["const:"+name] = true
+			c.declare(name, c.sortOf(elem))
+			a0 := c.regionInit("$alloc", 0)
+			c.assert = append(c.assert, c.wfAt(elem, name, a0))
+			vars := map[string]Val{}
+			for i, pr := range callee.Params {
+				if av, ok := x.evalSimple(info.call.Call.Args[i]); ok {
+					vars[pr.Name()] = av
+				}
+			}
+			bindResults(vars, callee.Signature, val)
+			st0 := &State{guard: "true", cells: map[string]Val{}}
+			env := &Env{x: x, c: c, st: st0, old: st0, vars: vars, oldVars: vars, fn: callee, pos: callee.Pos(), ghostOnly: true}
+			for _, en := range fc.Ensures {
+				if strings.Contains(en.Text, "old(") {
+					continue
+				}
+				c.assert = append(c.assert, x.evalClause(env, en))
+			}
+			fc.Used = true
+			c.note("package-level variable " + g.Name() + " is initialised once by " + x.p.funcKey(callee) + "(...) and satisfies its postcondition")
+		}
+		return val, true
 	}
 	v, ok := x.evalSimple(info.val)
 	if !ok {
